@@ -175,3 +175,24 @@ Proof.
       by (vm_compute; reflexivity).
     rewrite E in H. discriminate.
 Qed.
+
+Lemma final_C08_sound_sharing_nonvacuous :
+  let ps := sp_params w_valid in
+  let x := Str.s "cat $(N) $(N.label)" in
+  params_ok ps = true /\ agree ps [Str.s "N"] 0 2 = true /\ agree ps [Str.s "NX"] 0 2 = false
+  /\ no_token_left ps 0 x = true
+  /\ apply_row ps 0 x = Str.s "cat 1 N.1" /\ apply_row ps 2 x = Str.s "cat 1 N.1".
+Proof. vm_compute. repeat split; reflexivity. Qed.
+
+Lemma final_C08_sound_sharing_needs_hyp :
+  let ps := w_k4b_params in
+  let x := Str.s "$(A)" in
+  params_ok ps = true /\ agree ps [Str.s "A"] 0 1 = true
+  /\ (forall k, In k (keys_of ps) -> uses_key k x = true -> In k [Str.s "A"])
+  /\ no_token_left ps 0 x = false
+  /\ apply_row ps 0 x <> apply_row ps 1 x.
+Proof.
+  split; [vm_compute; reflexivity|]. split; [vm_compute; reflexivity|]. split.
+  - intros k [<-|[<-|[]]] H; [left; reflexivity | vm_compute in H; discriminate].
+  - split; [vm_compute; reflexivity | vm_compute; discriminate].
+Qed.
